@@ -92,7 +92,15 @@ def register(reg):
         lk = A(c, "BaseRelation", "is_locked")
         co = A(c, "BaseRelation", "columns")
         mt = A(c, "MarkerRelation", "target")
-        return [z3.ForAll([r], z3.Implies(z3.And(r != smt.NONE, ex.types.is_instance_z(r, ex.repo.cls("MarkerRelation"))), co(r) == co(mt(r))), patterns=[co(r)]),
+        mn, mx = A(c, "BaseRelation", "min_rows"), A(c, "BaseRelation", "max_rows")
+        iji, itr = A(c, "BaseRelation", "is_join_identity"), A(c, "BaseRelation", "is_trivial")
+        is_rel = lambda x: z3.And(x != smt.NONE, ex.types.is_instance_z(x, ex.repo.cls("BaseRelation")))  # noqa: E731
+        is_mk = lambda x: z3.And(x != smt.NONE, ex.types.is_instance_z(x, ex.repo.cls("MarkerRelation")))  # noqa: E731
+        return [z3.ForAll([r], z3.Implies(is_mk(r), co(r) == co(mt(r))), patterns=[co(r)]),
+                z3.ForAll([r], z3.Implies(is_mk(r), mn(r) == mn(mt(r))), patterns=[mn(r)]),
+                z3.ForAll([r], z3.Implies(is_mk(r), mx(r) == mx(mt(r))), patterns=[mx(r)]),
+                z3.ForAll([r], z3.Implies(is_rel(r), iji(r) == z3.And(co(r) == smt.EMPTY_TAGS, mx(r) == smt.OptInt.oi_some(z3.IntVal(1)), mn(r) == 1)), patterns=[iji(r)]),
+                z3.ForAll([r], z3.Implies(is_rel(r), itr(r) == z3.Or(iji(r), mx(r) == smt.OptInt.oi_some(z3.IntVal(0)))), patterns=[itr(r)]),
                 z3.ForAll([r], z3.Implies(z3.And(r != smt.NONE, ex.types.is_instance_z(r, ex.repo.cls("BaseRelation"))), engine_def(c, r, e(r))), patterns=[e(r)]),
                 z3.ForAll([r], z3.Implies(z3.And(r != smt.NONE, ex.types.is_instance_z(r, ex.repo.cls("BaseRelation"))), locked_def(c, r, lk(r))), patterns=[lk(r)])]
 
@@ -234,13 +242,22 @@ def register_engines(reg):
     SQL_UNVERIFIED = "implementations in lsst.daf.relation.sql are covered by the SQL contracts (C02/C17), not by this check"
 
     # -------------------------------------------------------------- MarkerRelation.reapply (C15: locked nodes are never rebuilt)
-    k = reg.contract("_marker_relation:MarkerRelation.reapply", properties=("C15", "C14", "C03"), self_classes=("MarkerRelation", "Transfer"))
+    k = reg.contract("_marker_relation:MarkerRelation.reapply", properties=("C15", "C14", "C03"), self_classes=("MarkerRelation", "Transfer"), modifies=("BaseRelation.payload",))
+    _ph = lambda c, old=False: c.ex.heap_array(c.old if old else c.state, "BaseRelation.payload", smt.Ref)  # noqa: E731
+    _o = z3.Const("o", smt.Ref)
+    k.ens("new-marker-carries-the-given-payload-nothing-else-changes",
+          lambda c: B(z3.And(z3.Implies(c.result.z != c.self.z, z3.Select(_ph(c), c.result.z) == c.payload.z),
+                             z3.ForAll([_o], z3.Implies(_o != c.result.z, z3.Select(_ph(c), _o) == z3.Select(_ph(c, True), _o)), patterns=[z3.Select(_ph(c), _o)]),
+                             z3.Implies(c.result.z == c.self.z, _ph(c) == _ph(c, True)),
+                             z3.Implies(c.result.z != c.self.z, smt.born(c.result.z) > 0))))
     k.req("locked-nodes-are-never-rebuilt", lambda c: B(smt.typ(c.self.z) != cid(c, "Materialization")))
     k.req("not-a-select-marker", lambda c: B(smt.typ(c.self.z) != cid(c, "Select")))
     k.req("a-carried-payload-holds-the-new-targets-rows", lambda c: B(z3.Or(c.payload.z == smt.NONE, V.content(c.payload.z) == V.rows(c.target.z))))
     k.req("transfer-still-changes-engine", lambda c: B(z3.Implies(smt.typ(c.self.z) == cid(c, "Transfer"), A(c, "Transfer", "destination")(c.self.z) != eng(c, c.target.z))))
     k.ens("unchanged-arguments-return-the-marker-itself",
           lambda c: B(z3.Implies(z3.And(c.target.z == A(c, "MarkerRelation", "target")(c.self.z), c.payload.z == c.attr(c.self, "payload", old=True).z), c.result.z == c.self.z)))
+    k.ens("the-marker-itself-only-for-unchanged-arguments",
+          lambda c: B(z3.Implies(c.result.z == c.self.z, z3.And(c.target.z == A(c, "MarkerRelation", "target")(c.self.z), c.payload.z == c.attr(c.self, "payload", old=True).z))))
     k.ens("same-kind-of-marker-over-the-new-target",
           lambda c: B(z3.And(smt.typ(c.result.z) == smt.typ(c.self.z), A(c, "MarkerRelation", "target")(c.result.z) == c.target.z,
                              z3.Implies(smt.typ(c.self.z) == cid(c, "Transfer"), A(c, "Transfer", "destination")(c.result.z) == A(c, "Transfer", "destination")(c.self.z)))))
@@ -289,6 +306,10 @@ def register_engines(reg):
 
     k = reg.contract("_engine:Engine.materialize", virtual=True, unverified_impls=("sql.",), properties=("C15", "C19"), note=SQL_UNVERIFIED)
     k.ens("same-rows-same-engine", lambda c: B(z3.And(V.rows(c.result.z) == V.rows(c.target.z), eng(c, c.result.z) == eng(c, c.target.z))))
+    k.ens("otherwise-a-new-empty-materialization-of-the-target",
+          lambda c: B(z3.Or(c.result.z == c.target.z,
+                            z3.And(smt.typ(c.result.z) == cid(c, "Materialization"), smt.born(c.result.z) > 0,
+                                   c.ex.types.attr_symbol(c.ex.repo.cls("MarkerRelation"), "target", TRefT(c.ex.repo.cls("BaseRelation")))(c.result.z) == c.target.z))))
     k.ens("leaves-and-materializations-are-not-materialized-again",
           lambda c: B(z3.Implies(c.ex.pure_symbol("_materialization:Materialization.simplify", [smt.Ref], smt.BoolS)(c.target.z), c.result.z == c.target.z)))
     k.raises("RelationalAlgebraError", None)
